@@ -38,16 +38,17 @@ CHECK_WRITE_LOWER = os.environ.get('VX_OVL_WRITE', '1') != '0'
 
 TOK = dict(param='Tracked(vxh): Tracked<&mut Heap>', arg='Tracked(vxh)')
 NODE_CALLEES = ['in_upper_layer', 'upper_layer_only', 'first_layer_inode', 'add_upper_inode', 'stat64', 'create_upper_dir', 'hu_upper', 'parent_node',
-                'count_entries_and_whiteout', 'load', 'child', 'insert_child', 'remove_child', 'kids_snapshot']
+                'count_entries_and_whiteout', 'load', 'store', 'child', 'insert_child', 'remove_child', 'kids_snapshot']
 FS_CALLEES = ['lookup_node', 'lookup_node_ignore_enoent', 'copy_node_up', 'copy_symlink_up', 'copy_regfile_up', 'load_directory', 'empty_node_directory',
               'insert_inode', 'remove_inode', 'alloc_inode', 'delete_whiteout', 'set_opaque', 'create_whiteout', 'get_data', 'fetch_sub', 'do_rm', 'do_mkdir']
 
 HEAP = r'''
 // ---- the ghost heap: what sits behind the Mutex / atomic cells of every OverlayInode, and what was done to the upper layer
-pub ghost struct NodeSt { pub ris: Seq<RealInode>, pub wh: bool, pub parent: Option<Arc<OverlayInode>>, pub depth: nat, pub path: Seq<char> }
+// lf: the node's `lower_exists` flag ("the lower layers alone show this name"); constantly false on a tree whose OverlayInode has no such field
+pub ghost struct NodeSt { pub ris: Seq<RealInode>, pub wh: bool, pub parent: Option<Arc<OverlayInode>>, pub depth: nat, pub path: Seq<char>, pub lf: bool }
 // an upper directory was put in front of a visible node's real inodes (create_upper_dir): everything else stays
 pub open spec fn pushed(n: NodeSt, o: NodeSt) -> bool {
-    n.ris.len() == o.ris.len() + 1 && n.ris.skip(1) == o.ris && n.ris[0].in_upper_layer && !n.ris[0].whiteout && !n.wh && !o.wh && n.path == o.path && n.parent == o.parent && n.depth == o.depth
+    n.ris.len() == o.ris.len() + 1 && n.ris.skip(1) == o.ris && n.ris[0].in_upper_layer && !n.ris[0].whiteout && !n.wh && !o.wh && n.path == o.path && n.parent == o.parent && n.depth == o.depth && n.lf == o.lf
 }
 pub ghost enum UpMut { Whiteout { dir: u64, name: Seq<u8> }, Unwhite { dir: u64, name: Seq<u8> }, Opaque { ino: u64 } }
 pub tracked struct Heap { pub ghost nodes: Map<int, NodeSt>, pub ghost log: Seq<UpMut> }
@@ -58,22 +59,23 @@ impl Heap {
     pub open spec fn upper_only(&self, id: int) -> bool { self.ris(id).len() == 1 && self.ris(id)[0].in_upper_layer }
     // C10: every real inode on record is honest about its layer; a live node has at least one; a parent is live, nearer the root, visible
     pub open spec fn inv(&self) -> bool { ninv(self.nodes) }
-    // REC (C11): a live, visible node whose path a lower layer still shows keeps a lower real inode on record - that is what do_rm consults
-    // (upper_layer_only) to decide whether a whiteout must be left so that the deletion survives a restart
+    // REC (C11): a node (visible or a whiteout) whose path the lower layers still show has that on record - a lower real inode, or the
+    // `lower_exists` flag: that is what do_rm consults to decide whether a whiteout must be left so that the deletion survives a restart,
+    // and do_mkdir to decide whether the new directory must be opaque
     pub open spec fn rec_id(&self, id: int) -> bool { nrec(self.nodes, id) }
-    // the record is kept: every node visible afterwards - new, or visible and in order before, or a whiteout before - is in order
+    // the record is kept: every node afterwards - new, or in order before - is in order
     pub open spec fn rec_pres(&self, o: Heap) -> bool { nrec_pres(self.nodes, o.nodes) }
     // nothing but node `id` changed, and that node only in its real inodes / whiteout flag
     pub open spec fn only_node(&self, o: Heap, id: int) -> bool {
         &&& self.nodes.dom() == o.nodes.dom() && self.log == o.log
         &&& forall|k: int| k != id ==> self.nodes[k] == o.nodes[k]
-        &&& self.nodes[id].parent == o.nodes[id].parent && self.nodes[id].depth == o.nodes[id].depth && self.nodes[id].path == o.nodes[id].path
+        &&& self.nodes[id].parent == o.nodes[id].parent && self.nodes[id].depth == o.nodes[id].depth && self.nodes[id].path == o.nodes[id].path && self.nodes[id].lf == o.nodes[id].lf
     }
     // a copy-up of `id` (and of ancestors of it that were not in the upper layer): nodes at least as deep as `id` other than `id` itself
     // are untouched, no node disappears or moves, nothing is logged
     pub open spec fn up_frame(&self, o: Heap, id: int) -> bool {
         &&& self.log == o.log
-        &&& forall|k: int| #[trigger] o.nodes.contains_key(k) ==> self.nodes.contains_key(k) && self.nodes[k].parent == o.nodes[k].parent && self.nodes[k].depth == o.nodes[k].depth && self.nodes[k].path == o.nodes[k].path
+        &&& forall|k: int| #[trigger] o.nodes.contains_key(k) ==> self.nodes.contains_key(k) && self.nodes[k].parent == o.nodes[k].parent && self.nodes[k].depth == o.nodes[k].depth && self.nodes[k].path == o.nodes[k].path && self.nodes[k].lf == o.nodes[k].lf
                 && (self.nodes[k] == o.nodes[k] || k == id || pushed(self.nodes[k], o.nodes[k]))
         &&& forall|k: int| !o.nodes.contains_key(k) ==> !#[trigger] self.nodes.contains_key(k)
         &&& forall|k: int| o.nodes.contains_key(k) && k != id && o.nodes[k].depth >= o.nodes[id].depth ==> #[trigger] self.nodes[k] == o.nodes[k]
@@ -85,16 +87,18 @@ pub open spec fn ninv(n: Map<int, NodeSt>) -> bool {
     &&& forall|id: int| #[trigger] n.contains_key(id) ==> n[id].ris.len() > 0
     &&& forall|id: int| #[trigger] n.contains_key(id) && n[id].parent is Some ==> n.contains_key(n[id].parent->Some_0.nid()) && n[n[id].parent->Some_0.nid()].depth < n[id].depth
             && !n[n[id].parent->Some_0.nid()].wh      // nothing hangs below a whiteout
+    &&& HAS_LF() || forall|id: int| #[trigger] n.contains_key(id) ==> !n[id].lf
 }
 pub open spec fn nrec(n: Map<int, NodeSt>, id: int) -> bool {
-    n.contains_key(id) && !n[id].wh && lower_has(n[id].path) ==> exists|i: int| 0 <= i < n[id].ris.len() && !(#[trigger] n[id].ris[i]).in_upper_layer
+    n.contains_key(id) && lower_has(n[id].path) ==> n[id].lf || exists|i: int| 0 <= i < n[id].ris.len() && !(#[trigger] n[id].ris[i]).in_upper_layer
 }
 pub open spec fn nrec_pres(n: Map<int, NodeSt>, o: Map<int, NodeSt>) -> bool {
-    forall|k: int| #[trigger] n.contains_key(k) && (o.contains_key(k) ==> o[k].wh || nrec(o, k)) ==> nrec(n, k)
+    forall|k: int| #[trigger] n.contains_key(k) && (o.contains_key(k) ==> nrec(o, k)) ==> nrec(n, k)
 }
 // "a lower layer still shows an entry at this overlay path" (the union of the lower layers alone); lower layers never change (C10), so
 // this is a fact about the path
 pub uninterp spec fn lower_has(path: Seq<char>) -> bool;
+pub open spec fn HAS_LF() -> bool { %(HAS_LF)s }      // does OverlayInode have the `lower_exists` field in this tree? (computed from the source text)
 pub open spec fn path_join_spec(dir: Seq<char>, name: Seq<char>) -> Seq<char> { dir + seq!['/'] + name }
 #[verifier::external_body] pub fn path_join(dir: &str, name: &str) -> (r: String) ensures r@ == path_join_spec(dir@, name@) { unimplemented!() }
 // ---- cells of a node: identity only; their content is in the heap
@@ -112,16 +116,21 @@ impl CounterCell {
 #[verifier::external_body] pub struct FlagCell { _p: u8 }
 impl FlagCell {
     pub uninterp spec fn id(&self) -> int;
+    pub uninterp spec fn kind(&self) -> int;      // 0: a node's `whiteout`, 1: a node's `lower_exists`, otherwise a flag of the OverlayFs itself
     pub uninterp spec fn cfg(&self) -> bool;      // flags of the OverlayFs itself (no_open, ..): fixed after init
     #[verifier::external_body] pub fn load(&self, o: Ordering, Tracked(vxh): Tracked<&mut Heap>) -> (r: bool)
-        ensures *final(vxh) == *old(vxh), old(vxh).nodes.contains_key(self.id()) ==> r == old(vxh).nodes[self.id()].wh, !old(vxh).nodes.contains_key(self.id()) ==> r == self.cfg() { unimplemented!() }
+        ensures *final(vxh) == *old(vxh), self.kind() == 0 && old(vxh).nodes.contains_key(self.id()) ==> r == old(vxh).nodes[self.id()].wh,
+            self.kind() == 1 && old(vxh).nodes.contains_key(self.id()) ==> r == old(vxh).nodes[self.id()].lf, self.kind() != 0 && self.kind() != 1 ==> r == self.cfg() { unimplemented!() }
+    #[verifier::external_body] pub fn store(&self, v: bool, o: Ordering, Tracked(vxh): Tracked<&mut Heap>)
+        requires self.kind() == 1, old(vxh).nodes.contains_key(self.id())        // only a node's `lower_exists` is stored to by the functions under contract
+        ensures final(vxh).log == old(vxh).log, final(vxh).nodes == old(vxh).nodes.insert(self.id(), NodeSt { lf: v, ..old(vxh).nodes[self.id()] }) { unimplemented!() }
 }
 '''
 
 NODE = r'''
 impl OverlayInode {
     pub open spec fn nid(&self) -> int { self.real_inodes.id() }
-    pub open spec fn cells_ok(&self) -> bool { self.whiteout.id() == self.nid() }       // the node's flag cell is keyed like the node
+    pub open spec fn cells_ok(&self) -> bool { self.whiteout.id() == self.nid() && self.whiteout.kind() == 0 %(LF_CELL)s }       // the node's flag cells are keyed like the node
     pub open spec fn node_ok(&self, vxh: Heap) -> bool { self.cells_ok() && vxh.nodes.contains_key(self.nid()) && vxh.nodes[self.nid()].path == self.path@ }
     pub uninterp spec fn s_stat(&self, ctx: Context, vxh: Heap) -> Result<stat64>;
     // ---- the node operations of unit ovl_merge, restated over the heap (S-HEAP)
@@ -148,7 +157,7 @@ impl OverlayInode {
     // OverlayInode::new_from_real_inode: a fresh node holding that one real inode
     #[verifier::external_body] pub fn new_from_real_inode(name: &str, ino: u64, path: String, real_inode: RealInode, Tracked(vxh): Tracked<&mut Heap>) -> (r: Self)
         ensures !old(vxh).nodes.contains_key(r.nid()) && r.cells_ok() && r.inode == ino && r.path@ == path@ && r.name@ == name@ && final(vxh).log == old(vxh).log,
-            final(vxh).nodes == old(vxh).nodes.insert(r.nid(), NodeSt { ris: seq![real_inode], wh: real_inode.whiteout, parent: None, depth: 0, path: path@ }) { unimplemented!() }
+            final(vxh).nodes == old(vxh).nodes.insert(r.nid(), NodeSt { ris: seq![real_inode], wh: real_inode.whiteout, parent: None, depth: 0, path: path@, lf: HAS_LF() && !real_inode.in_upper_layer && !real_inode.whiteout }) { unimplemented!() }
     // the children table (the live view's bookkeeping: not part of what is decided here)
     #[verifier::external_body] pub fn child(&self, name: &str, Tracked(vxh): Tracked<&mut Heap>) -> (r: Option<Arc<OverlayInode>>) ensures *final(vxh) == *old(vxh) { unimplemented!() }
     #[verifier::external_body] pub fn insert_child(&self, name: &str, node: Arc<OverlayInode>, Tracked(vxh): Tracked<&mut Heap>) ensures *final(vxh) == *old(vxh) { unimplemented!() }
@@ -182,6 +191,7 @@ impl HandlesCell {
 impl OverlayFs {
     // C10: the configured upper layer is THE object mutations may reach; without one there is none
     pub open spec fn fs_wf(&self) -> bool {
+        &&& self.no_open.kind() == 2 && self.no_opendir.kind() == 2 && self.writeback.kind() == 2 && self.killpriv_v2.kind() == 2 && self.perfile_dax.kind() == 2
         &&& self.upper_layer is Some ==> (*self.upper_layer->Some_0).is_upper()
         &&& self.upper_layer is None ==> forall|l: LayerObj| !#[trigger] l.is_upper()
     }
@@ -329,14 +339,14 @@ UP_COMMON_ENS = ['final(vxh).inv() // [C10.ops.inv] every real inode on record s
 RM_AFTER_COPY = '''let ghost hc = *vxh; let ghost iw = hc.log.len() as int;
         proof {
             assert(hc.nodes.contains_key(nd));
-            if nd != pn && hb.rec_id(nd) && lower_has(hb.nodes[nd].path) && !hb.nodes[nd].wh {
+            if nd != pn && hb.rec_id(nd) && lower_has(hb.nodes[nd].path) && !hb.nodes[nd].wh && !hb.nodes[nd].lf {
                 let i0 = choose|i: int| 0 <= i < hb.ris(nd).len() && !(#[trigger] hb.ris(nd)[i]).in_upper_layer;
                 if hc.nodes[nd] != hb.nodes[nd] { assert(pushed(hc.nodes[nd], hb.nodes[nd])); assert(hc.ris(nd)[i0 + 1] == hb.ris(nd)[i0]); }
                 assert(!hc.upper_only(nd));
             }
         }'''
 RM_END = '''proof {
-            if need_whiteout { assert(vxh.log[iw] == (UpMut::Whiteout { dir: hc.ris(pn)[0].inode, name: name@ })); }
+            if need_whiteout && iw < vxh.log.len() { assert(vxh.log[iw] == (UpMut::Whiteout { dir: hc.ris(pn)[0].inode, name: name@ })); }
             assert(vxh.nodes[pn] == hc.nodes[pn]); assert(vxh.nodes[nd] == hc.nodes[nd]);
         }'''
 CUD_END = '''proof {
@@ -344,7 +354,6 @@ CUD_END = '''proof {
             assert(h1.inv());
             assert(vxh.only_node(h1, me));
             assert(forall|id: int| vxh.nodes.contains_key(id) <==> h1.nodes.contains_key(id));
-            assert(vxh.ris(me) == seq![vxh.ris(me)[0]] + h1.ris(me));
             assert forall|id: int, i: int| vxh.nodes.contains_key(id) && 0 <= i < vxh.ris(id).len() implies (#[trigger] vxh.ris(id)[i]).wf() by {
                 if id == me { if i > 0 { assert(vxh.ris(me)[i] == h1.ris(me)[i - 1]); assert(h1.ris(me)[i - 1].wf()); } else { assert(vxh.ris(me)[0].wf()); } } else { assert(vxh.nodes[id] == h1.nodes[id]); assert(h1.nodes.contains_key(id)); assert(h1.ris(id)[i].wf()); }
             }
@@ -369,7 +378,9 @@ def unit(root='/repo'):
     items.append(Copy(OVL, r'pub\(crate\) struct RealInode\b'))
     items.append(Raw(C.REAL_SPEC + RL.REAL_PRE))
     items.append(RL.utils_group(root))
-    items.append(Raw(HEAP))
+    has_lf = 'pub lower_exists: AtomicBool' in X.Source(root, OVL).src
+    fmt = dict(HAS_LF='true' if has_lf else 'false', LF_CELL='&& self.lower_exists.id() == self.nid() && self.lower_exists.kind() == 1' if has_lf else '')
+    items.append(Raw(HEAP.replace('%(HAS_LF)s', fmt['HAS_LF'])))
     items.append(Copy(OVL, r'pub\(crate\) struct OverlayInode\b', subst=NODE_SUBST))
     items.append(Raw(LAYER_OPS))
     # RealInode mutators: callee side
@@ -381,7 +392,7 @@ def unit(root='/repo'):
             f.sig_subst = [('name: &str)', 'name: &str, Tracked(vxh): Tracked<&mut Heap>)')]
         rfns.append(f)
     items.append(Group('impl RealInode {', rfns))
-    items.append(Raw(NODE))
+    items.append(Raw(NODE.replace('%(LF_CELL)s', fmt['LF_CELL'])))
     items.append(Copy('src/overlayfs/config.rs', r'pub struct Config\b'))
     items.append(Copy(OVL, r'pub enum CachePolicy\b'))
     items.append(Copy(OVL, r'pub struct OverlayFs\b', subst=FS_SUBST))
@@ -433,7 +444,7 @@ def unit(root='/repo'):
                 assert(vxh.rec_id(me));
             }
             assert(h1.rec_pres(h0));
-            assert forall|k: int| #[trigger] vxh.nodes.contains_key(k) && k != me && (h0.nodes.contains_key(k) ==> h0.nodes[k].wh || h0.rec_id(k)) implies vxh.rec_id(k) by {
+            assert forall|k: int| #[trigger] vxh.nodes.contains_key(k) && k != me && (h0.nodes.contains_key(k) ==> h0.rec_id(k)) implies vxh.rec_id(k) by {
                 assert(vxh.nodes[k] == h1.nodes[k]); assert(h1.nodes.contains_key(k)); assert(h1.rec_id(k));
             }
         }'''
@@ -479,10 +490,10 @@ def unit(root='/repo'):
                     + ([
                     'r is Ok && lower_has(path_join_spec(parent_node.path@, name@)) ==> %s is Opaque // [C11.do_mkdir.opaque_when_lower] a directory made where a lower layer still shows an entry is marked opaque: the old contents do not come back' % NEWLOG,
                     REC_CLAUSE % 'do_mkdir'] if CHECK_LOWER_RECORD else []),
-                splices=[('let mut new_node = None;', 'before', 'let ghost h2 = *vxh; let ghost iw = h2.log.len() as int; let ghost mut iop: int = 0; proof { assert(pnode == *parent_node); }'),
-                         ('let ino = self.alloc_inode(&path, Tracked(vxh))?;', 'before', 'proof { if delete_whiteout { assert(vxh.log.len() == iw + 1); assert(vxh.log[iw] == (UpMut::Unwhite { dir: h2.ris(pnode.nid())[0].inode, name: str_bytes(name@) })); } }'),
-                         ('let ovi = OverlayInode::new_from_real_inode(name, ino, path.clone(), child_dir, Tracked(vxh));', 'before', 'proof { iop = vxh.log.len() - 1; if set_opaque { assert(vxh.log[iop] is Opaque); } }'),
-                         ('Ok(())\n    }', 'before', 'proof { if delete_whiteout { assert(vxh.log[iw] == (UpMut::Unwhite { dir: h2.ris(pnode.nid())[0].inode, name: str_bytes(name@) })); } if set_opaque { assert(vxh.log[iop] is Opaque); } assert(vxh.nodes[pnode.nid()] == h2.nodes[pnode.nid()]); }')],
+                splices=[('let mut new_node = None;', 'before', 'let ghost h2 = *vxh; let ghost mut h3 = *vxh; let ghost iw = h2.log.len() as int; let ghost mut iop: int = 0; proof { assert(pnode == *parent_node); }'),
+                         ('let ino = self.alloc_inode(&path, Tracked(vxh))?;', 'before', 'proof { h3 = *vxh; if delete_whiteout && vxh.log.len() == iw + 1 { assert(vxh.log[iw] == (UpMut::Unwhite { dir: h2.ris(pnode.nid())[0].inode, name: str_bytes(name@) })); } }'),
+                         ('let ovi = OverlayInode::new_from_real_inode(name, ino, path.clone(), child_dir, Tracked(vxh));', 'before', 'proof { iop = vxh.log.len() - 1; }'),
+                         ('Ok(())\n    }', 'before', 'proof { if delete_whiteout && iw < vxh.log.len() && h3.log.len() == iw + 1 { assert(vxh.log[iw] == h3.log[iw]); } if 0 <= iop < vxh.log.len() { assert(vxh.log[iop] == vxh.log[iop]); } assert(vxh.nodes[pnode.nid()] == h2.nodes[pnode.nid()]); }')],
                 ), path_callees=['new_from_real_inode'])
     mk.locate = R.presub_locate(OF, 'do_mkdir', [('format!("{}/{}", pnode.path, name)', 'path_join(pnode.path.as_str(), name)', 'the child path as a model call (R7 would erase it)')])
     mk.body_hooks = [R.r29_inline_upper_closure(0)]
@@ -496,7 +507,7 @@ def unit(root='/repo'):
                     REC_CLAUSE % 'do_rm'] if CHECK_LOWER_RECORD else []),
                 splices=[('let node = self.lookup_node(ctx, parent, sname.as_str(), Tracked(vxh))?;', 'after', 'let ghost nd = node.nid(); let ghost pn = pnode.nid(); proof { reveal_strlit(""); assert(""@ =~= Seq::<char>::empty()); }'),
                          ('let mut need_whiteout = true;', 'before', 'let ghost hb = *vxh;'),
-                         ('if node.upper_layer_only(Tracked(vxh)) {', 'before', RM_AFTER_COPY),
+                         ('let pnode = self.copy_node_up(ctx, Arc::clone(&pnode), Tracked(vxh))?;', 'after', RM_AFTER_COPY),
                          ('Ok(())\n    }', 'before', RM_END)],
                 ), path_callees=['new_from_real_inode'])
     rm.locate = R.presub_locate(OF, 'do_rm', [('format!("{}/{}", pnode.path, sname)', 'path_join(pnode.path.as_str(), sname.as_str())', 'the child path as a model call (R7 would erase it)'),
